@@ -4,6 +4,7 @@ use super::*;
 use crate::app::verif_retry::{any_duration_ms, any_strategy};
 use crate::app::{ExponentialBackOff, RetryStrategy};
 use crate::app::{ControlField, Iin1, Iin2, ResponseFunction};
+use crate::master::tasks::NonReadTask;
 use crate::util::phys::PhysAddr;
 use crate::verif_common::*;
 use std::time::Duration;
@@ -304,5 +305,82 @@ fn c15_unsolicited_gate_and_repeat() {
     assert!(poll_once(a.handle_unsolicited_response(&rsp)) == Some(true));
     assert!(unsafe { RH_CALLS } == 1);
     kani::cover!(true);
+    std::mem::forget(a);
+}
+
+#[derive(PartialEq, Clone, Copy)]
+enum Kind {
+    None,
+    Wait,
+    ClearRestart,
+    Disable,
+    Integrity,
+    TimeSync,
+    Enable,
+    EventScan,
+    Other,
+}
+
+fn kind(n: &Next<Task>) -> Kind {
+    match n {
+        Next::None => Kind::None,
+        Next::NotBefore(_) => Kind::Wait,
+        Next::Now(Task::App(AppTask::NonRead(NonReadTask::Auto(AutoTask::ClearRestartBit)))) => Kind::ClearRestart,
+        Next::Now(Task::App(AppTask::NonRead(NonReadTask::Auto(AutoTask::DisableUnsolicited(_))))) => Kind::Disable,
+        Next::Now(Task::App(AppTask::NonRead(NonReadTask::Auto(AutoTask::EnableUnsolicited(_))))) => Kind::Enable,
+        Next::Now(Task::App(AppTask::Read(ReadTask::StartupIntegrity(_)))) => Kind::Integrity,
+        Next::Now(Task::App(AppTask::Read(ReadTask::EventScan(_)))) => Kind::EventScan,
+        Next::Now(Task::App(AppTask::NonRead(NonReadTask::TimeSync(_)))) => Kind::TimeSync,
+        _ => Kind::Other,
+    }
+}
+
+// @harness c17_auto_task_priority
+// @props C17
+// @tier thorough
+// @class attempt
+// @timeout 3600
+// @mem 12
+// @units TaskStates::next, AutoTaskState::create_next_task
+// @bounds all six automatic-task states idle or pending (no retry waits), any configuration (class sets, time sync on/off), any events-available bits: the task chosen is the FIRST applicable one in the order clear-restart > disable-unsolicited > integrity > time-sync > enable-unsolicited > event-scan (so unsolicited reporting is enabled only after integrity and time sync, and a restart is acknowledged before anything else).  Attempt-and-report: the result is a big task enum returned by value.
+// @stubs tokio::time::Instant::now -> harness clock
+#[kani::proof]
+#[kani::unwind(4)]
+#[kani::stub(tokio::time::Instant::now, crate::verif_common::now_fixed)]
+fn c17_auto_task_priority() {
+    set_now_any();
+    let cfg = any_config();
+    let st = cfg.auto_tasks_retry_strategy;
+    let mut a = mk_assoc(cfg);
+    let c: [u8; 6] = kani::any();
+    kani::assume(c[0] < 2 && c[1] < 2 && c[2] < 2 && c[3] < 2 && c[4] < 2 && c[5] < 2);
+    a.auto_tasks.disable_unsolicited = any_state(c[0], st);
+    a.auto_tasks.integrity_scan = any_state(c[1], st);
+    a.auto_tasks.enabled_unsolicited = any_state(c[2], st);
+    a.auto_tasks.clear_restart_iin = any_state(c[3], st);
+    a.auto_tasks.time_sync = any_state(c[4], st);
+    a.auto_tasks.event_scan = any_state(c[5], st);
+    a.events_available = any_ec();
+    let n = a.auto_tasks.next(&a.config, &a);
+    let k = kind(&n);
+    let expect = if c[3] == 1 {
+        Kind::ClearRestart
+    } else if cfg.disable_unsol_classes.any() && c[0] == 1 {
+        Kind::Disable
+    } else if cfg.startup_integrity_classes.any() && c[1] == 1 {
+        Kind::Integrity
+    } else if c[4] == 1 && cfg.auto_time_sync.is_some() {
+        Kind::TimeSync
+    } else if cfg.enable_unsol_classes.any() && c[2] == 1 {
+        Kind::Enable
+    } else if (a.events_available & cfg.event_scan_on_events_available).any() {
+        if c[5] == 1 { Kind::EventScan } else { Kind::None }
+    } else {
+        Kind::None
+    };
+    assert!(k == expect);
+    kani::cover!(k == Kind::Enable);
+    kani::cover!(k == Kind::Integrity);
+    std::mem::forget(n);
     std::mem::forget(a);
 }
